@@ -22,3 +22,13 @@ package oracle
 //@ loop 0: invariant forall id Int :: old(has(Store_oracle, types.ResultStoreKey(id))) ==> Store_oracle[types.ResultStoreKey(id)] == old(Store_oracle)[types.ResultStoreKey(id)]
 //@ loop 0: invariant Store_oracle[types.PendingResolveListStoreKey] == old(Store_oracle)[types.PendingResolveListStoreKey]
 //@ loop 0: invariant keeper.wfRequests(Store_oracle)
+
+// C02 / C14: the oracle begin-blocker is the reward allocation over the previous block's votes, nothing else; its
+// store invariant is the one SetParams establishes (validated parameters), its input ranges those of CometBFT vote
+// infos (see AllocateTokens).
+//@ func BeginBlocker
+//@ may_panic
+//@ modifies Bank, Other, DistrReceived, DistrAllocated
+//@ requires len(ctx.VoteInfos()) <= 4096 && (forall j :: 0 <= j && j < len(ctx.VoteInfos()) ==> 0 <= ctx.VoteInfos()[j].Validator.Power && ctx.VoteInfos()[j].Validator.Power <= 1125899906842624)
+//@ requires keeper.oracleParams(Store_oracle).OracleRewardPercentage <= 100
+//@ ensures err == nil ==> (forall d Str :: DistrAllocated[d] - old(DistrAllocated)[d] == DistrReceived[d] - old(DistrReceived)[d])
